@@ -16,6 +16,8 @@ func init() {
 }
 
 func runC17(r *engine.Run) {
+	r.Rule("AGREE-unwrapped", "the error of a recursive iterate call is returned unchanged, never wrapped in a constructed error: the callers recognise absent nodes by comparing with the sentinel errors")
+	r.Rule("WHO-limit", "the value size limit MPTMaxAllowableNodeSize is used only in Insert (or in a guard helper all of whose callers are Insert): whole nodes - e.g. those the sync repair takes over - are never held to the limit of a value")
 	r.Rule("ERR-getnode", "at every call site of the trie's getNode, every return that is reached with the lookup error non-nil returns a non-nil error that is not the benign sentinel ErrValueNotPresent (the error itself, a node-not-found sentinel or a constructed error): lookups under an absent node fail rather than answer 'not present'")
 	r.Rule("DEP-count", "iterate's branch arm keeps visiting the remaining children when a child reports an absent node: inside the child loop a return of the child's error is reached only when it is none of the absent-node sentinels, the sentinels increment a counter, and ErrIteratingChildNodes is returned under counter != 0")
 	r.Rule("AGREE-sentinels", "the set of errors iterate counts as 'absent node' equals the set HasMissingNodes maps to (true, nil), and contains the store's ErrNodeNotFound, iterate's own ErrIteratingChildNodes and the detection handler's ErrMissingNodes")
@@ -42,6 +44,8 @@ func runC17(r *engine.Run) {
 	domNodeFound(r, "DOM-nodefound")
 	orderPublish17(r, "ORDER-publish")
 	errGuard(r, "ERR-guard", "ERR-dropped", funcsOfPkg(r, pkgUtil), 20)
+	agreeSentinelWrap(r, "AGREE-unwrapped")
+	whoLimit(r, "WHO-limit")
 }
 
 // resultValue resolves the i-th result of ret through a named-result cell
@@ -143,9 +147,15 @@ func errGetNode(r *engine.Run) {
 						}
 					}
 					if ex, ok := last.(*ssa.Extract); ok {
-						// error of a call made on the error path (iterate: the handler's error)
-						if _, isCall := ex.Tuple.(*ssa.Call); isCall {
-							okRet = true
+						// error of a call made on the error path (iterate: the handler's error): a
+						// dynamic call's verdict is the caller's business; the result of a repository
+						// operation counts only where it is known to be an error here - handing back
+						// the results of another trie operation turns the failed lookup into whatever
+						// that operation reports, usually success
+						if cc, isCall := ex.Tuple.(*ssa.Call); isCall {
+							if cc.Call.StaticCallee() == nil || provablyNonNil(f, ret.Block(), last) {
+								okRet = true
+							}
 						}
 					}
 					if cc, ok := last.(*ssa.Call); ok && cc.Call.StaticCallee() == nil && !cc.Call.IsInvoke() {
@@ -609,4 +619,166 @@ func orderPublish17(r *engine.Run, rule string) {
 		r.Check(good, rule, o.next(fn(f)+"|publish after write"), r.P.Pos(p.Pos()), "reached only after PutNode returned a nil error",
 			"a merged node is put into the trie's cache / change set before (or regardless of whether) its store write succeeded: after a failed write the trie serves the node from its cache and stops reporting it missing, while the store still lacks it")
 	}
+}
+
+// agreeSentinelWrap: iterate reports an absent node to its callers by identity:
+// the branch arm of iterate and HasMissingNodes switch on the sentinel errors.
+// An error that comes back from a recursive iterate call therefore has to go up
+// unchanged; wrapping it (fmt.Errorf("...: %w", err)) makes it match none of the
+// sentinels, the walk aborts and HasMissingNodes answers (false, err) for a trie
+// that GetAllMissingNodes still reports as incomplete.
+func agreeSentinelWrap(r *engine.Run, rule string) {
+	f := r.Fn(rule, pkgUtil, "MerklePatriciaTrie", "iterate")
+	if f == nil {
+		return
+	}
+	n := 0
+	o := ord{}
+	engine.Instrs(f, func(in ssa.Instruction) {
+		c, ok := in.(*ssa.Call)
+		if !ok || c.Call.StaticCallee() != f {
+			return
+		}
+		n++
+		var e ssa.Value = c // single error result
+		bad := ""
+		seen := map[ssa.Value]bool{}
+		var follow func(v ssa.Value)
+		follow = func(v ssa.Value) {
+			if seen[v] {
+				return
+			}
+			seen[v] = true
+			for _, ref := range engine.Referrers(v) {
+				switch x := ref.(type) {
+				case *ssa.Phi:
+					follow(x)
+				case *ssa.MakeInterface:
+					follow(x)
+				case *ssa.ChangeInterface:
+					follow(x)
+				case *ssa.Slice, *ssa.IndexAddr:
+				case *ssa.Store:
+					// into the variadic argument array of a formatting call
+					if ia, ok := x.Addr.(*ssa.IndexAddr); ok {
+						follow(ia.X)
+					}
+				case *ssa.Alloc:
+				case *ssa.Call:
+					sc := x.Call.StaticCallee()
+					if sc != nil && sc.Pkg != nil && (sc.Pkg.Pkg.Path() == "fmt" && sc.Name() == "Errorf" || sc.Pkg.Pkg.Path() == "errors" && (sc.Name() == "Join" || sc.Name() == "New")) {
+						// is the constructed error returned?
+						for _, r2 := range engine.Referrers(x) {
+							if _, isRet := r2.(*ssa.Return); isRet {
+								bad = r.P.Pos(x.Pos())
+							}
+							if ph, isPhi := r2.(*ssa.Phi); isPhi {
+								for _, r3 := range engine.Referrers(ph) {
+									if _, isRet := r3.(*ssa.Return); isRet {
+										bad = r.P.Pos(x.Pos())
+									}
+								}
+							}
+						}
+					}
+				}
+			}
+		}
+		follow(e)
+		// the variadic array: new [k]any; stores of iface(e) into its elements; slice passed to Errorf
+		engine.Instrs(f, func(i2 ssa.Instruction) {
+			st, ok := i2.(*ssa.Store)
+			if !ok || !seen[st.Val] {
+				return
+			}
+			ia, ok := st.Addr.(*ssa.IndexAddr)
+			if !ok {
+				return
+			}
+			for _, ref := range engine.Referrers(ia.X) {
+				if sl, ok := ref.(*ssa.Slice); ok {
+					for _, r2 := range engine.Referrers(sl) {
+						if call, ok := r2.(*ssa.Call); ok {
+							if sc := call.Call.StaticCallee(); sc != nil && sc.Pkg != nil && sc.Pkg.Pkg.Path() == "fmt" && sc.Name() == "Errorf" {
+								for _, r3 := range engine.Referrers(call) {
+									if _, isRet := r3.(*ssa.Return); isRet {
+										bad = r.P.Pos(call.Pos())
+									}
+								}
+							}
+						}
+					}
+				}
+			}
+		})
+		r.Check(bad == "", rule, o.next(fn(f)+"|recursive error"), r.P.Pos(c.Pos()), "the error of the recursive walk goes up unchanged",
+			"iterate returns the error of a recursive walk wrapped in a new error ("+bad+"): its callers (the branch arm of iterate, HasMissingNodes) recognise an absent node by comparing with the sentinel errors, so a wrapped ErrMissingNodes / ErrNodeNotFound aborts the walk and the trie is reported as having no missing nodes")
+	})
+	if n < 2 {
+		r.Anchor(rule, fmt.Errorf("unresolved anchor: only %d recursive calls in iterate", n))
+	}
+}
+
+// whoLimit: MPTMaxAllowableNodeSize bounds the marshalled VALUE handed to Insert.
+// An encoded node is larger than its value (prefix, path, origin, type byte); a
+// second place that holds whole nodes to the same constant - e.g. the sync
+// repair - rejects nodes that Insert accepted, and the repair can never complete.
+// Rule: the constant is used only in Insert or in a function all of whose callers
+// are Insert (a guard extracted into a helper).
+func whoLimit(r *engine.Run, rule string) {
+	pk := r.P.Pkgs[engine.RepoMod+"/"+pkgUtil]
+	if pk == nil || pk.TypesInfo == nil {
+		r.Anchor(rule, fmt.Errorf("unresolved anchor: package %s", pkgUtil))
+		return
+	}
+	insert := r.Fn(rule, pkgUtil, "MerklePatriciaTrie", "Insert")
+	if insert == nil {
+		return
+	}
+	cg := r.P.RepoCG()
+	n := 0
+	bad := ""
+	for id, obj := range pk.TypesInfo.Uses {
+		if obj == nil || obj.Name() != "MPTMaxAllowableNodeSize" || obj.Pkg() == nil || obj.Pkg().Path() != pk.PkgPath {
+			continue
+		}
+		if strings.HasSuffix(r.P.Fset.Position(id.Pos()).Filename, "_test.go") {
+			continue
+		}
+		n++
+		// enclosing function
+		var encl *ssa.Function
+		for _, f := range funcsOfPkg(r, pkgUtil) {
+			if f.Syntax() == nil {
+				continue
+			}
+			if f.Syntax().Pos() <= id.Pos() && id.Pos() <= f.Syntax().End() {
+				if encl == nil || f.Syntax().Pos() >= encl.Syntax().Pos() {
+					encl = f
+				}
+			}
+		}
+		if encl == nil {
+			continue // package-level declaration
+		}
+		top := engine.TopFunc(encl)
+		if top == insert {
+			continue
+		}
+		onlyInsert := len(cg.In[top]) > 0
+		for _, e := range cg.In[top] {
+			if engine.TopFunc(e.Caller) != insert {
+				onlyInsert = false
+			}
+		}
+		if !onlyInsert {
+			bad = fn(top) + " at " + r.P.Pos(id.Pos())
+		}
+	}
+	if n < 1 {
+		r.Anchor(rule, fmt.Errorf("unresolved anchor: no use of MPTMaxAllowableNodeSize found"))
+		return
+	}
+	r.Check(bad == "", rule, "MPTMaxAllowableNodeSize|used for the inserted value only", r.P.Pos(insert.Pos()), "the size limit is applied in Insert (or its guard helper) only",
+		"the value size limit is also applied in "+bad+": an encoded node is larger than the value Insert measured, so a node Insert accepted is refused there - a repair from another store stops at that node and the trie keeps missing nodes")
 }
